@@ -230,7 +230,23 @@ function type (`||`, so `occ σ false` is the model of the code as written and `
 the OLD code), and the projection check rejects `idx = len` (`projCheckLe`). Reverting either breaks this theorem; the
 search then replays the old witnesses (`fn f(x){ x(x) }`, `t.2` on a pair). -/
 theorem C04_typing_facts_pinned :
-    Mimium.Gen.occursFnArmIsOr = true ∧ Mimium.Gen.projCheckRejectsLen = true := by decide
+    Mimium.Gen.occursFnArmIsOr = true ∧ Mimium.Gen.projCheckRejectsLen = true ∧
+    Mimium.Gen.stageIncrementSaturates = true := by decide
+
+open Mimium.Occurs in
+/-- the REPAIRED stage counter (/repo c4d9327): for EVERY nesting depth it is defined (no overflow), exact up to 255 and
+255 beyond. -/
+theorem C04_stage_counter_saturates (k : Nat) : nestQuotesSat k 0 = min k 255 := by
+  have gen : ∀ k s, s ≤ 255 → nestQuotesSat k s = min (s + k) 255 := by
+    intro k
+    induction k with
+    | zero => intro s hs; simp [nestQuotesSat]; omega
+    | succ k ih =>
+      intro s hs
+      simp only [nestQuotesSat, incrementStageSat]
+      rw [ih (min (s + 1) 255) (by omega)]
+      omega
+  simpa using gen k 0 (by omega)
 
 open Mimium.Occurs in
 /-- PARTIAL: up to 255 nested quote levels the stage counter is exact. -/
